@@ -111,7 +111,8 @@ CHECKS = {
     "C16": ("Hypothesis-generated SDE programs x 9 interface variants (differential, bit-equality or explicit error) and "
             "derived operators vs explicit Jacobians",
             "Generated-input search: every interface variant is either bit-identical to (f,g) or an explicit error; "
-            "prod / g dg v / Levy-area Jacobian term equal their definitions to 1e-10. Found D2.",
+            "prod / g dg v / Levy-area Jacobian term equal their definitions to 1e-10 under no_grad, inference_mode and "
+            "grad. Found D2 and D15.",
             "User-side g_prod is written with the same tensor ops as the library default; reference Jacobians from "
             "torch.autograd.functional.jacobian.",
             "DESIGN.md §4 C16"),
